@@ -13,7 +13,7 @@ from .vc import Contract, FunctionVC, Registry, solve_obligation
 
 VERIF = os.path.dirname(os.path.dirname(os.path.abspath(__file__)))
 
-CONTRACT_MODULES = ['contracts.tokenize', 'contracts.tal_repeat', 'contracts.utils_bytes', 'contracts.k2_quote']
+CONTRACT_MODULES = ['contracts.tokenize', 'contracts.tal_repeat', 'contracts.utils_bytes', 'contracts.k2_quote', 'contracts.template_file', 'schemas.onerror', 'schemas.tal_basic']
 
 
 def build_registry(modules=None):
@@ -76,7 +76,7 @@ def main(argv):
     mods = None
     only = None
     for a in argv:
-        if a.startswith('contracts.'):
+        if a.startswith('contracts.') or a.startswith('schemas.'):
             mods = (mods or []) + [a]
         else:
             only = a
